@@ -459,14 +459,21 @@ def ite_lazy(O):
     rets = [p for p in paths if p.outcome == "return"]
     O.witness(rets, "ite with three arguments returns", cls)
     # lazy ite observed through a branch that would be an error (reads a Z output) if evaluated
+    # ... and through a branch that would consume a random draw if evaluated: after resetRandom the first draw is x again
+    # exactly if the unselected branch drew nothing (compared within one run, no seed involved)
+    BIG = "(1 << 62)"
     sc = [Scenario("A Y V\ndeclare V = 0;\n0 X (ite(1, 5, Y))\n0 X (ite(0, Y, 6))\n",
-                   [("in", "A", 1, 0), ("out", "Y", 8)], default_answer=["Z"], note="lazy")]
+                   [("in", "A", 1, 0), ("out", "Y", 8)], default_answer=["Z"], note="lazy", expect={"vals": ["5", "6"]}),
+          Scenario("A Y V\ndeclare V = 0;\nresetRandom;\nlet x = random(%s);\nresetRandom;\nlet t = ite(0, random(%s), 5);\n"
+                   "let y = random(%s);\n0 X (x = y)\nresetRandom;\nlet u = ite(1, 5, random(%s));\nlet z = random(%s);\n0 X ((x = z) + t + u)\n"
+                   % (BIG, BIG, BIG, BIG, BIG), [("in", "A", 1, 0), ("out", "Y", 8)], default_answer=[0],
+                   note="the unselected branch draws no random number", expect={"vals": ["1", "11"]})]
 
     def judge(obs, s):
         def chk(o, s2):
             vals = [r["outputs"][-1][1] for r in o.rows]
-            if vals != ["5", "6"]:
-                return "ite rows evaluated to %s (items %s), reference ['5', '6']" % (vals, [i[0] for i in o.items])
+            if vals != s2.expect["vals"]:
+                return "ite rows evaluated to %s (items %s), reference %s (%s)" % (vals, [i[0] for i in o.items], s2.expect["vals"], s2.note)
             return None
         return no_panic_judge(chk)(obs, s)
     f = {"fn": "ite"}
